@@ -50,6 +50,12 @@ def cases(tier, seed):
     for c in hist_stale.array_cases(random.Random(f'C08:{seed}:stale'), 300 if tier == 'quick' else 4000, seed):
         c['kind'] = 'stale'
         yield c
+    # ... and histories that bring the array back to exactly the state the long-lived handle documented last
+    for k, (nt, bo) in enumerate(COMBOS):
+        for steps in (['h:app2', 'x:trunc2', 'h:app2'], ['h:app2', 'x:trunc2', 'h:md', 'h:app2'],
+                      ['h:md', 'h:app2', 'x:trunc2', 'x:md_clear', 'h:app2', 'h:md']):
+            yield {'kind': 'stale', 'numtype': nt, 'bo': bo, 'shape': [[3], [2, 2], [0], [4, 1, 2]][k % 4], 'steps': steps,
+                   'vseed': f'{seed}:back{k}', 'chunklen': [1, 2, 100][k % 3]}
 
 
 def run_case(case, env):
